@@ -485,10 +485,82 @@ def rule_panics(rep):
                 continue
             seen += 1
             why = PANIC_SITES.get((f, fn["name"], kind, cond)) or PANIC_SITES.get(("*", fn["name"], kind, cond))
+            if why is None and kind == "debug_assert" and fn["name"] == "process_into_buffer" and x.get("args"):
+                # semantic match: `debug_assert!(M <= wave_out[chan].as_mut().len())` with M the minimum output length just validated
+                c = x["args"][0]
+                vcalls = ir.calls(fn["body"], "validate_buffers")
+                if c.get("k") == "bin" and c["op"] == "<=" and len(vcalls) == 1 and len(vcalls[0]["args"]) == 6 and nbit(c["l"]) == nbit(vcalls[0]["args"][5]) \
+                        and c["r"].get("k") == "mcall" and c["r"]["name"] == "len" and any(is_path(y, fn["params"][1]["name"]) for y in walk(c["r"])):
+                    why = "restates the output length validate_buffers just checked (R-C13-order)"
             rep.ob(R, "%s/%s/%s %s" % (f, fn["name"], kind, cond[:60]), why is not None,
                    "explicit panic site `%s(%s)` in %s is not in the reviewed table: nothing shows that it cannot fire on a valid call history" % (kind, cond[:90], qual), loc(fn, x),
                    sample={"site": "%s::%s %s" % (f, fn["name"], kind), "reviewed": why})
     rep.ob(R, "scan", seen > 0, "%d explicit panic sites enumerated" % seen, "src/")
+
+
+def rule_fft_capacity(rep):
+    """FftFixedOut writes whole FFT blocks into output_buffers[chan][saved..]; the buffer holds chunk_size_out + fft_size_out frames.
+    That suffices only if the number of blocks requested is ceil((chunk_size_out − saved)/fft_size_out) (and none once saved ≥ chunk_size_out)."""
+    import fftmodel
+    import ineq
+    facts = rep.ctx.facts
+    R = "R-C03-fft-capacity"
+    t = "FftFixedOut"
+    m = fftmodel.extract(facts, t)
+    alg = fftmodel.make_alg(facts, t)
+    cfn, cst, inits = ctor_state(facts, t)
+    ob_init = inits.get("output_buffers")
+    CO, FO, FI, S = alg.sym("chunk_size_out"), alg.sym("fft_size_out"), alg.sym("fft_size_in"), alg.sym("saved_frames")
+    cap = None
+    if ob_init is not None and ob_init.get("k") == "macro" and ob_init.get("repeat") and ob_init["repeat"][0].get("k") == "macro" and ob_init["repeat"][0].get("repeat"):
+        from C05 import to_ctor
+        calg = Alg(TypeEnv(locals_={p["name"]: "int" for p in cfn["params"]}))
+        cap_c = calg.conv(ob_init["repeat"][0]["repeat"][1])
+        # express in field terms: chunk_size_out (param stored verbatim) and fft_size_out (FftResampler::new's second argument)
+        fr = None
+        for x in walk(inits.get("resampler") or {}):
+            if x.get("k") == "call" and is_path(x["f"]) and x["f"]["p"].endswith("new") and len(x["args"]) == 2:
+                fr = x["args"]
+        if fr is not None:
+            cap = cap_c.subs(calg.conv(fr[1]), FO).subs(calg.sym("chunk_size_out"), CO)
+    fin = m["final"].fields.get("frames_needed")
+    if cap is None or fin is None:
+        rep.ob(R, t, False, "cannot determine the capacity of output_buffers / the end-of-call request", loc(m["fn"]))
+        return
+    # blocks requested for a state with `saved` frames pending: frames_needed / fft_in, from the end-of-call formula with saved' renamed to saved
+    s2_ir = m["final"].fields["saved_frames"]
+    key = nbit(s2_ir)
+
+    def rename(e):
+        if isinstance(e, list):
+            return [rename(x) for x in e]
+        if not isinstance(e, dict):
+            return e
+        if e.get("k") in ("ite", "bin", "field", "path", "if") and nbit(e) == key:
+            return ir.self_field("saved_frames")
+        return {k_: (rename(v_) if isinstance(v_, (dict, list)) and k_ != "ln" else v_) for k_, v_ in e.items()}
+    v = alg.conv(rename(fin))
+    blocks = sp.simplify(v / FI)
+    # case saved < chunk_out (the only case in which blocks may be requested)
+    b1 = blocks
+    for pw in list(blocks.atoms(sp.Piecewise)):
+        b1 = b1.subs(pw, pw.args[0][0])
+    d = sp.Symbol("d", integer=True)            # d = chunk_out − saved ≥ 1
+    need1 = (S + b1 * FO).subs(S, CO - d)
+    ok1, res1 = ineq.prove_ge(cap, need1, {CO: 1, FO: 1, d: 1})
+    # case saved ≥ chunk_out: no block may be requested
+    b0 = blocks
+    for pw in list(blocks.atoms(sp.Piecewise)):
+        b0 = b0.subs(pw, pw.args[-1][0])
+    cd0 = [f for f in b0.atoms(sp.Function) if f.func.__name__ == "cdiv"]
+    for f in cd0:
+        if f.args[0] == 0:
+            b0 = b0.subs(f, 0)
+    ok0 = sp.simplify(b0) == 0
+    rep.ob(R, t, bool(ok1) and ok0,
+           "output_buffers holds %s frames per channel; a call writes blocks at [saved, saved + blocks·fft_size_out) with blocks = %s: for saved < chunk_size_out the relaxed slack is %s (%s); "
+           "for saved ≥ chunk_size_out the request must be 0 blocks (got %s)" % (cap, blocks, res1, "≥ 0" if ok1 else "NOT shown ≥ 0", sp.simplify(b0)), loc(m["fn"]),
+           sample={"capacity": str(cap), "blocks": str(blocks)})
 
 
 def rule_validate_exact(rep):
@@ -535,6 +607,7 @@ def run(rep):
     rep.guarded("R-C03-cpu-guard", rule_cpu_guard)
     rep.guarded("R-C03-subindex", rule_subindex)
     rep.guarded("R-C03-panic-sites", rule_panics)
+    rep.guarded("R-C03-fft-capacity", rule_fft_capacity)
     if rep.ctx.tier == "thorough":
         rep.guarded("R-C03-crosscheck", rule_crosscheck)
         rep.floor("R-C03-crosscheck", 8)
@@ -562,6 +635,7 @@ def run(rep):
     rep.floor("R-C03-margin", 2 + 9 + 9)
     rep.floor("R-C03-history", 2)
     rep.floor("R-C03-subindex", 2)
+    rep.floor("R-C03-fft-capacity", 1)
     rep.floor("R-C03-panic-sites", 21)
     rep.floor("R-C03-cpu-guard", 4 + 1 + 3 * (4 + 1 + 1) + 6)
     rep.floor("R-C03-alloc", 4)
@@ -574,6 +648,7 @@ def run(rep):
     rep.clause("R-C03-guard", "each of the 4 kernel wrappers asserts index+length < wave.len() and subindex < nbr_sincs before its unsafe code; those fields are the dimensions given to make_sincs; sinc_len % 8 == 0 asserted")
     rep.clause("R-C03-kernel-bounds", "given the asserts, every get_unchecked / SIMD load in the 7 kernels stays inside wave[index..index+length) and the packed table")
     rep.clause("R-C03-panic-sites", "every explicit panic site (assert!/debug_assert!/panic!/unwrap/expect) of the non-test code is in a reviewed table that says why it cannot fire on a valid history; a new site is reported")
+    rep.clause("R-C03-fft-capacity", "FftFixedOut's block buffer (chunk_size_out + fft_size_out frames) holds saved + requested blocks in every state: proved from the end-of-call request formula")
     rep.clause("R-C03-subindex", "sub-indices produced by get_nearest_times_* stay below the oversampling factor for every configuration the constructors accept (today factor 1 with Cubic/Quadratic is accepted: known finding)")
     rep.clause("R-C03-cpu-guard", "each SIMD interpolator refuses construction unless exactly the CPU features its #[target_feature] kernels are compiled for are detected; the kernels are reachable only through it")
     rep.clause("R-C03-chan", "per-channel (unchecked) accesses are indexed by the enumerate index of channel_mask; buffer and mask have nbr_channels entries and are never resized")
